@@ -27,6 +27,7 @@ const KeyTimesN = "rotation/times-n-differs-from-n-single-steps"
 func init() {
 	core.Register(&core.Check{
 		ID:        "C17",
+		Also:      []string{"C17S"}, // in-simulation lane: round-skipping nodes agree on the proposer (h/checks/c17sim)
 		Level:     "exploration",
 		Technique: "differential monitoring of the real types.ValidatorSet (and consensus.ApplyBlock / VerifyFaultValEvidence call sites) against a one-step weighted-round-robin reference, pairwise path comparison, exact counting laws and a map model of the set",
 		Rule: "case = one generated validator set (thorough: 8 sets per case; 1-30 validators; equal / small / coprime / dominant / wide / extreme / saturating powers; random list order) put through: " +
